@@ -233,6 +233,14 @@ def run(ctx) -> None:
                 code_rets.append(r)
     okc = bool(code_rets) and bool(clo_nodes) and all(all_paths_pass(hcfg.entry, r, clo_nodes, lambda a, b, l, i: l != "exc") for r in code_rets)
     rep.add("C09.R1", f"{hd.qname}:captured-values-hashed", okc, hd.loc(), f"all {len(code_rets)} code-identifying hash results include the function's captured values" if okc else "a path returns a hash of the source text / bytecode alone: functions produced by one factory (same source, different captured values) get the same definition hash and, with equal inputs, each other's cache entries")
+    # functions that share their source text are told apart by their code: inspect.getsource() returns the whole line
+    # for a lambda, so two lambdas written on one line share it.  On the path that hashes the source, the code object
+    # enters the hash at least when the function is a lambda.
+    src_rets = [r for r in code_rets if any("getsource" in src(d) for nm in {x.id for x in ast.walk(r.ast.value) if isinstance(x, ast.Name)} for d in db.local_defs(hd).get(nm, []))] or code_rets[:1]
+    code_updates = [n for n in hcfg.nodes if n.kind == "stmt" and n.ast is not None and any(isinstance(x, ast.Attribute) and x.attr == "co_code" for x in ast.walk(n.ast))]
+    first_ret = min(code_rets, key=lambda r: r.lineno) if code_rets else None
+    okl = first_ret is not None and any(reaches(u, first_ret) for u in code_updates)
+    rep.add("C09.R1", f"{hd.qname}:same-source-told-apart", okl, hd.loc(), "on the source path the code object is hashed as well where several functions can share the text (lambdas)" if okl else "the source path hashes the text inspect.getsource() returns and nothing of the code object: two lambdas written on one line (e.g. in a list) share their definition hash and, with equal arguments and output names, their cache entries — the second is served the first's result")
     loose = []
     for g in [hd] + sorted(clo_fs, key=lambda f_: f_.qname):
         for lp in [n for n in walk_local(g.node) if isinstance(n, ast.For)]:
@@ -307,13 +315,22 @@ def run(ctx) -> None:
         a_names = [a.id for a in cc_call.args if isinstance(a, ast.Name)]
         payload = lc.args[0].id if lc.args and isinstance(lc.args[0], ast.Name) else None
         exp_ok = stored_ok = False
+        # on *every* path one operand is the digest recomputed over (secret, key, payload) and the other the stored one:
+        # a remembered verdict or the stored digest standing in for the recomputation authenticates nothing
         for nm in a_names:
+            kinds = set()
             for d, v in defs_reaching(gcfg, grd, t, nm):
                 if isinstance(v, ast.Call) and "_compute_hmac_bytes" in call_names(db, v, get):
                     args = [src(a) for a in v.args]
-                    exp_ok = payload in args and "key" in args and any("_hmac_key" in a for a in args)
-                if isinstance(v, ast.Call) and isinstance(v.func, ast.Attribute) and v.func.attr == "get" and "_cache" in src(v.func.value):
-                    stored_ok = v.args and "key" in src(v.args[0]) and "_HMAC_SUFFIX" in src(v.args[0])
+                    kinds.add("computed" if payload in args and "key" in args and any("_hmac_key" in a for a in args) else "other")
+                elif isinstance(v, ast.Call) and isinstance(v.func, ast.Attribute) and v.func.attr == "get" and "_cache" in src(v.func.value):
+                    kinds.add("stored" if v.args and "key" in src(v.args[0]) and "_HMAC_SUFFIX" in src(v.args[0]) else "other")
+                else:
+                    kinds.add("other")
+            if kinds == {"computed"}:
+                exp_ok = True
+            if kinds == {"stored"}:
+                stored_ok = True
         same_payload = payload is not None and len({d for d, _ in defs_reaching(gcfg, grd, ln, payload)}) == 1
         rep.add("C09.R2", f"{get.qname}:digest-over-same-bytes", exp_ok and same_payload, f"{get.module.rel}:{t.lineno}", "expected digest = HMAC(secret, key, the very bytes that are later deserialised)" if exp_ok and same_payload else "the digest is not computed over the bytes that are deserialised (a swapped payload would verify)")
         rep.add("C09.R2", f"{get.qname}:stored-digest-by-key", bool(stored_ok), f"{get.module.rel}:{t.lineno}", "stored digest is read under key + suffix" if stored_ok else "stored digest is not read under this entry's key")
